@@ -416,6 +416,32 @@ func (cs *Contracts) parseFile(path, src string) error {
 				ae.Cond, ae.Body = b.X, b.Y
 			}
 			cur.AtEvals = append(cur.AtEvals, ae)
+		case "on-call":
+			f := strings.Fields(rest)
+			if len(f) < 2 {
+				return fmt.Errorf("%s:%d: on-call <callee>[#n] [label:] <expr>", path, ln)
+			}
+			cl, err := parseClause(strings.TrimSpace(rest[len(f[0]):]))
+			if err != nil {
+				return fmt.Errorf("%s:%d: %v", path, ln, err)
+			}
+			oc := &OnCall{Callee: f[0], Label: cl.Label, Expr: cl.Expr, Text: cl.Text}
+			if k := strings.Index(f[0], "#"); k >= 0 {
+				oc.Callee = f[0][:k]
+				fmt.Sscan(f[0][k+1:], &oc.Nth)
+			}
+			cur.OnCalls = append(cur.OnCalls, oc)
+		case "on-store":
+			// on-store <field> [label:] <expr over was / now>
+			f := strings.Fields(rest)
+			if len(f) < 2 {
+				return fmt.Errorf("%s:%d: on-store <field> [label:] <expr>", path, ln)
+			}
+			cl, err := parseClause(strings.TrimSpace(rest[len(f[0]):]))
+			if err != nil {
+				return fmt.Errorf("%s:%d: %v", path, ln, err)
+			}
+			cur.OnStores = append(cur.OnStores, &OnStore{Field: f[0], Label: cl.Label, Expr: cl.Expr, Text: cl.Text})
 		case "lemma":
 			cl, err := parseClause(rest)
 			if err != nil {
